@@ -202,9 +202,13 @@ static unsigned scan(const T &t, unsigned *oi) {
     return no;
 }
 
+// A table without storage (Capacity() == 0: default-constructed, Reset, moved-from).  Only calls that do not walk the
+// (null) storage: `while (item < end)` on two null pointers is well-defined in C++ but a fatal "pointer relation" alarm
+// for CBMC's C semantics.
 static void check_empty(const T &t, bool cap_zero) {
-    vf_assert(t.Size() == 0 && t.ActualSize() == 0 && t.IsEmpty(), 800);
+    vf_assert(t.Size() == 0 && t.IsEmpty(), 800);
     if (cap_zero) vf_assert(t.Capacity() == 0, 801);
+    else vf_assert(t.ActualSize() == 0, 806);
     MKey p = sym_key();
     Key2 pk(p.d, p.n);
     vf_assert(!t.Has(pk), 802);
@@ -217,6 +221,7 @@ static void check_empty(const T &t, bool cap_zero) {
 // sorted: 0 = storage order must be the model's (first-insertion) order; +1 / -1 = ascending / descending key order
 static void observe(const T &t, const Model &m, int sorted) {
     const unsigned sz = t.Size();
+    if (t.Capacity() == 0) { vf_assert(m.n == 0 && sz == 0, 14); check_empty(t, true); return; }
     const unsigned as = t.ActualSize();
     vf_assert(as == m.n, 10);
     vf_assert(sz >= as && sz <= t.Capacity(), 11);
@@ -302,12 +307,17 @@ static void observe(const T &t, const Model &m, int sorted) {
     }
 }
 
+// Tables live in placement buffers and are destroyed explicitly, and only when they own storage: ~HashTable() on a table
+// without storage runs Dispose(nullptr, nullptr) (the null pointer relation again); it has nothing to release.
+#define TABLE(name, buf, ...) alignas(8) unsigned char buf[sizeof(T)]; T &name = *new (&buf[0]) T(__VA_ARGS__)
+static void fin(T &t) { if (t.Capacity() != 0) t.~T(); }
+
 extern "C" void h_op() {
     Model m; m.n = 0;
 #if CAP == 0
-    T t;
+    TABLE(t, tbuf);
 #else
-    T t(SizeT(CAP));
+    TABLE(t, tbuf, SizeT(CAP));
     vf_assert(t.Capacity() >= CAP && t.Size() == 0, 1);
 #endif
     build(t, m, PAT, SZ, CP, K);
@@ -395,9 +405,9 @@ extern "C" void h_op() {
     {
         Model mu; mu.n = 0;
 #if CAP2 == 0
-        T u;
+        TABLE(u, ubuf);
 #else
-        T u(SizeT(CAP2));
+        TABLE(u, ubuf, SizeT(CAP2));
 #endif
         build(u, mu, PAT2, SZ2, CP2, K2);
         for (unsigned x = 0; x < mu.n; ++x) m_put(m, mu.k[x], mu.v[x]);
@@ -406,12 +416,14 @@ extern "C" void h_op() {
         t += u;
         vf_assert(u.Size() == usz && u.Capacity() == ucap, 130);
         observe(u, mu, 0);                              // source untouched
+        fin(u);
 #else
         t += Memory::Move(u);
         check_empty(u, true);
 #if POST
         { Model m1; m1.n = 0; MKey k = sym_key(); int v = sym_val(); t_insert(u, k, v); m_put(m1, k, v); observe(u, m1, 0); }
 #endif
+        fin(u);
 #endif
     }
 #elif OP == OP_RESERVE
@@ -430,16 +442,18 @@ extern "C" void h_op() {
         }
         t.Resize(SizeT(ARG));
         m = r;
-        vf_assert(t.Capacity() >= ARG && t.Size() == t.ActualSize(), 151);
-        if (ARG == 0) vf_assert(t.Capacity() == 0, 152);
+        vf_assert(t.Capacity() >= ARG, 151);
+        if (ARG == 0) vf_assert(t.Capacity() == 0 && t.Size() == 0, 152);
+        else vf_assert(t.Size() == t.ActualSize(), 153);
     }
 #elif OP == OP_EXPECT
     t.Expect(SizeT(ARG));
     vf_assert(t.Capacity() >= t.Size() + ARG, 160);
 #elif OP == OP_COMPRESS
     t.Compress();
-    vf_assert(t.Size() == t.ActualSize(), 170);
-    if (m.n == 0) vf_assert(t.Capacity() == 0, 171);
+    if (m.n == 0) vf_assert(t.Capacity() == 0 && t.Size() == 0, 171);
+    else vf_assert(t.Capacity() != 0, 172);
+    if (t.Capacity() != 0) vf_assert(t.Size() == t.ActualSize(), 170);
 #elif OP == OP_CLEAR
     {
         const unsigned c0 = t.Capacity();
@@ -461,29 +475,31 @@ extern "C" void h_op() {
 #elif OP == OP_COPY_CTOR
     {
         const unsigned s0 = t.Size(), c0 = t.Capacity();
-        T c(t);
+        TABLE(c, cbuf, t);
         vf_assert(t.Size() == s0 && t.Capacity() == c0, 200);
         vf_assert(c.Size() == c.ActualSize(), 201);
         observe(c, m, 0);
 #if POST
         { MKey k = sym_key(); int v = sym_val(); t_insert(c, k, v); Model mc = m; m_put(mc, k, v); observe(c, mc, 0); }   // the copy is independent
 #endif
+        fin(c);
     }
 #elif OP == OP_MOVE_CTOR
     {
         const unsigned s0 = t.Size(), c0 = t.Capacity();
-        T c(Memory::Move(t));
+        TABLE(c, cbuf, Memory::Move(t));
         vf_assert(c.Size() == s0 && c.Capacity() == c0, 210);
         observe(c, m, 0);
+        fin(c);
         m.n = 0; t_gone = true;
     }
 #elif OP == OP_COPY_ASSIGN || OP == OP_MOVE_ASSIGN
     {
         Model mu; mu.n = 0;
 #if CAP2 == 0
-        T u;
+        TABLE(u, ubuf);
 #else
-        T u(SizeT(CAP2));
+        TABLE(u, ubuf, SizeT(CAP2));
 #endif
         build(u, mu, PAT2, SZ2, CP2, K2);
 #if OP == OP_COPY_ASSIGN
@@ -491,11 +507,13 @@ extern "C" void h_op() {
         u = t;
         vf_assert(t.Size() == s0 && t.Capacity() == c0, 220);
         observe(u, m, 0);
+        fin(u);
 #else
         const unsigned s0 = t.Size(), c0 = t.Capacity();
         u = Memory::Move(t);
         vf_assert(u.Size() == s0 && u.Capacity() == c0, 221);
         observe(u, m, 0);
+        fin(u);
         m.n = 0; t_gone = true;
 #endif
     }
@@ -519,6 +537,7 @@ extern "C" void h_op() {
         if (gv != nullptr && mi >= 0) vf_assert(*gv == m.v[mi], 303);
 #endif
     }
+    fin(t);
     vf_witness();
 }
 
